@@ -1,22 +1,265 @@
-//! C04 — add/sub/neg exact with exact carry/overflow (K64, all values).
-use crate::{Limb, Uint, U128, U64};
+//! C04 — add/sub/neg exact with exact carry/overflow (k64: real 64-bit words, all values).
+use crate::__verif_common::*;
+use crate::{
+    Checked, CheckedAdd, CheckedSub, ConstChoice, Limb, Uint, WideWord, Word, Wrapping, WrappingAdd, WrappingNeg,
+    WrappingSub,
+};
 
-fn any_uint<const L: usize>() -> Uint<L> {
-    let mut limbs = [Limb::ZERO; L];
-    let mut i = 0;
-    while i < L {
-        limbs[i] = Limb(kani::any());
-        i += 1;
+// ---------------------------------------------------------------- primitives / Limb
+
+//@ prop=C04,C11 tier=quick profile=k64 funcs="primitives::adc,primitives::overflowing_add,primitives::sbb,Limb::adc,Limb::sbb,Limb::overflowing_add" bound="one word each, all values of lhs, rhs and carry/borrow-in word" free_bits=192
+#[kani::proof]
+fn c04_prim_adc_sbb_all_words() {
+    let a: Word = kani::any();
+    let b: Word = kani::any();
+    let c: Word = kani::any();
+    // adc: exact a + b + c, carry in {0,1,2}
+    let (r, co) = crate::primitives::adc(a, b, c);
+    let t: u128 = (a as u128) + (b as u128) + (c as u128);
+    assert!(r == t as Word);
+    assert!(co as u128 == t >> Word::BITS);
+    let (lr, lco) = Limb(a).adc(Limb(b), Limb(c));
+    assert!(lr.0 == r && lco.0 == co);
+    kani::cover!(co == 2);
+    // overflowing_add
+    let (r2, c2) = crate::primitives::overflowing_add(a, b);
+    assert!(r2 == a.wrapping_add(b) && c2 == (a.checked_add(b).is_none() as Word));
+    let (lr2, lc2) = Limb(a).overflowing_add(Limb(b));
+    assert!(lr2.0 == r2 && lc2.0 == c2);
+    // sbb: borrow-in is the top bit of the incoming mask; borrow-out is 0 or all-ones
+    let bin = c >> (Word::BITS - 1);
+    let (d, bo) = crate::primitives::sbb(a, b, c);
+    let t2: i128 = (a as i128) - (b as i128) - (bin as i128);
+    assert!(d == t2 as Word);
+    assert!(bo == if t2 < 0 { Word::MAX } else { 0 });
+    let (ld, lbo) = Limb(a).sbb(Limb(b), Limb(c));
+    assert!(ld.0 == d && lbo.0 == bo);
+    kani::cover!(bo == Word::MAX && a == b);
+}
+
+//@ prop=C04,C03,C11 tier=thorough profile=k64 funcs="primitives::mac" bound="one word each, all values of a,b,c,carry; the 64x64->128 hardware product is shared between code and oracle (the carry logic around it is what is decided)" free_bits=256
+#[kani::proof]
+fn c04_prim_mac_all_words() {
+    let a: Word = kani::any();
+    let b: Word = kani::any();
+    let c: Word = kani::any();
+    let k: Word = kani::any();
+    let (lo, hi) = crate::primitives::mac(a, b, c, k);
+    // a + b*c + k < 2^128 always; compare as (hi,lo)
+    let p: u128 = (b as u128) * (c as u128);
+    let (s1, o1) = p.overflowing_add(a as u128);
+    let (s2, o2) = s1.overflowing_add(k as u128);
+    assert!(!o1 && !o2);
+    assert!(lo == s2 as Word && hi == (s2 >> 64) as Word);
+    kani::cover!(hi == Word::MAX);
+}
+
+//@ prop=C04,C03,C11 tier=quick profile=k64 funcs="primitives::mac" bound="all a,c,carry words; multiplier b shaped S(5) (values within 32 of 0 or 2^64): carries out of the low word and into the high word for every addend" free_bits=198
+#[kani::proof]
+fn c04_prim_mac_shaped_b() {
+    let a: Word = kani::any();
+    let b: Word = shaped_word(5);
+    let c: Word = kani::any();
+    let k: Word = kani::any();
+    let (lo, hi) = crate::primitives::mac(a, b, c, k);
+    let p: u128 = (b as u128) * (c as u128);
+    let (s1, o1) = p.overflowing_add(a as u128);
+    let (s2, o2) = s1.overflowing_add(k as u128);
+    assert!(!o1 && !o2);
+    assert!(lo == s2 as Word && hi == (s2 >> 64) as Word);
+    kani::cover!(hi == Word::MAX);
+    kani::cover!(b == Word::MAX && c == Word::MAX && a == Word::MAX && k == Word::MAX);
+}
+
+//@ prop=C03,C11 tier=quick profile=k64 funcs="primitives::mul_wide,primitives::mulhilo" bound="one word each, all values; hardware product shared with the oracle" free_bits=128
+#[kani::proof]
+fn c04_prim_mul_wide_all_words() {
+    let b: Word = kani::any();
+    let c: Word = kani::any();
+    let p: u128 = (b as u128) * (c as u128);
+    let (mlo, mhi) = crate::primitives::mul_wide(b, c);
+    assert!(mlo == p as Word && mhi == (p >> 64) as Word);
+    let (hhi, hlo) = crate::primitives::mulhilo(b, c);
+    assert!(hlo == p as Word && hhi == (p >> 64) as Word);
+}
+
+//@ prop=C04,C11 tier=quick profile=k64 funcs="primitives::addhilo" bound="all (hi,lo) pairs whose sum fits 128 bits" free_bits=256
+#[kani::proof]
+fn c04_prim_addhilo() {
+    let xh: Word = kani::any();
+    let xl: Word = kani::any();
+    let yh: Word = kani::any();
+    let yl: Word = kani::any();
+    let x = ((xh as u128) << 64) | xl as u128;
+    let y = ((yh as u128) << 64) | yl as u128;
+    kani::assume(x.checked_add(y).is_some());
+    let (h, l) = crate::primitives::addhilo(xh, xl, yh, yl);
+    assert!((((h as u128) << 64) | l as u128) == x + y);
+}
+
+//@ prop=C04,C11 tier=quick profile=k64 funcs="Limb::saturating_add,Limb::wrapping_add,Limb::checked_add,Limb::saturating_sub,Limb::wrapping_sub,Limb::checked_sub,Limb::wrapping_neg,Wrapping<Limb>,Checked<Limb>" bound="Limb, all a,b" free_bits=128
+#[kani::proof]
+fn c04_limb_forms() {
+    let a: Word = kani::any();
+    let b: Word = kani::any();
+    let (la, lb) = (Limb(a), Limb(b));
+    assert!(la.saturating_add(lb).0 == a.saturating_add(b));
+    assert!(la.wrapping_add(lb).0 == a.wrapping_add(b));
+    let ca = CheckedAdd::checked_add(&la, &lb);
+    assert!(bool::from(ca.is_some()) == a.checked_add(b).is_some());
+    if a.checked_add(b).is_some() {
+        assert!(ca.unwrap().0 == a + b);
     }
-    Uint::new(limbs)
+    assert!(la.saturating_sub(lb).0 == a.saturating_sub(b));
+    assert!(la.wrapping_sub(lb).0 == a.wrapping_sub(b));
+    let cs = CheckedSub::checked_sub(&la, &lb);
+    assert!(bool::from(cs.is_some()) == (a >= b));
+    if a >= b {
+        assert!(cs.unwrap().0 == a - b);
+    }
+    assert!(la.wrapping_neg().0 == a.wrapping_neg());
+    assert!(WrappingNeg::wrapping_neg(&la).0 == a.wrapping_neg());
+    assert!(WrappingAdd::wrapping_add(&la, &lb).0 == a.wrapping_add(b));
+    assert!(WrappingSub::wrapping_sub(&la, &lb).0 == a.wrapping_sub(b));
+    // wrappers
+    let mut w = Wrapping(la);
+    w += Wrapping(lb);
+    assert!(w.0.0 == a.wrapping_add(b));
+    w -= &Wrapping(lb);
+    assert!(w.0.0 == a);
+    assert!((Wrapping(la) - Wrapping(lb)).0.0 == a.wrapping_sub(b));
+    assert!((-Wrapping(la)).0.0 == a.wrapping_neg());
+    let mut c = Checked::new(la);
+    c += Checked::new(lb);
+    assert!(bool::from(c.0.is_some()) == a.checked_add(b).is_some());
+    // sticky none: once overflowed, a further subtraction does not resurrect the value
+    let c2 = c - Checked::new(lb);
+    assert!(bool::from(c2.0.is_some()) == a.checked_add(b).is_some());
+    let d = Checked::new(la) - Checked::new(lb);
+    assert!(bool::from(d.0.is_some()) == (a >= b));
+    kani::cover!(a.checked_add(b).is_none());
+    kani::cover!(a < b);
 }
 
-fn u128_of(x: &Uint<2>) -> u128 {
-    let w = x.as_words();
-    (w[0] as u128) | ((w[1] as u128) << 64)
+//@ prop=C04,C11 tier=quick profile=k64 funcs="Limb::add(op),Limb::sub(op)" bound="Limb, all a,b with a+b / a-b in range: operators must not panic and be exact" free_bits=128
+#[kani::proof]
+fn c04_limb_ops_in_range() {
+    let a: Word = kani::any();
+    let b: Word = kani::any();
+    if a.checked_add(b).is_some() {
+        assert!((Limb(a) + Limb(b)).0 == a + b);
+    }
+    if a >= b {
+        assert!((Limb(a) - Limb(b)).0 == a - b);
+        assert!((Limb(a) - &Limb(b)).0 == a - b);
+    }
 }
 
-//@ prop=C04 tier=quick profile=k64 funcs="Uint::adc,Limb::adc,primitives::adc" bound="Uint<2>, u64 words, all a,b, all carry-in words" free_bits=320
+//@ prop=C04,C11 tier=quick profile=k64 funcs="Limb::add(op)" bound="Limb, all a,b with a+b >= 2^64: operator must panic" free_bits=128 must_panic=1
+#[kani::proof]
+fn c04_limb_add_op_panics_on_overflow() {
+    let a: Word = kani::any();
+    let b: Word = kani::any();
+    kani::assume(a.checked_add(b).is_none());
+    let _ = Limb(a) + Limb(b);
+    crate::__verif_common::must_have_panicked();
+}
+
+//@ prop=C04,C11 tier=quick profile=k64 funcs="Limb::sub(op)" bound="Limb, all a<b: operator must panic" free_bits=128 must_panic=1
+#[kani::proof]
+fn c04_limb_sub_op_panics_on_underflow() {
+    let a: Word = kani::any();
+    let b: Word = kani::any();
+    kani::assume(a < b);
+    let _ = Limb(a) - Limb(b);
+    crate::__verif_common::must_have_panicked();
+}
+
+// ---------------------------------------------------------------- Uint<L>
+
+macro_rules! uint_addsub {
+    ($name:ident, $L:expr) => {
+        #[kani::proof]
+        #[kani::unwind(10)]
+        fn $name() {
+            const L: usize = $L;
+            let a: Uint<L> = any_uint();
+            let b: Uint<L> = any_uint();
+            let cin: Word = kani::any();
+            let (aw, bw) = (words_of(&a), words_of(&b));
+            // adc with an arbitrary carry-in word
+            let (r, co) = a.adc(&b, Limb(cin));
+            let (rr, rco) = ref_add(&aw, &bw, cin);
+            assert!(words_eq(&words_of(&r), &rr));
+            assert!(co.0 == rco);
+            // sbb with an arbitrary borrow mask (top bit = borrow)
+            let bin = cin >> (Word::BITS - 1);
+            let (d, bo) = a.sbb(&b, Limb(cin));
+            let (rd, rbo) = ref_sub(&aw, &bw, bin);
+            assert!(words_eq(&words_of(&d), &rd));
+            assert!(bo.0 == if rbo == 1 { Word::MAX } else { 0 });
+            // derived forms
+            let (s0, c0) = ref_add(&aw, &bw, 0);
+            let (d0, b0) = ref_sub(&aw, &bw, 0);
+            assert!(words_eq(&words_of(&a.wrapping_add(&b)), &s0));
+            assert!(words_eq(&words_of(&WrappingAdd::wrapping_add(&a, &b)), &s0));
+            assert!(words_eq(&words_of(&a.wrapping_sub(&b)), &d0));
+            assert!(words_eq(&words_of(&WrappingSub::wrapping_sub(&a, &b)), &d0));
+            let sat = a.saturating_add(&b);
+            assert!(if c0 != 0 { sat == Uint::<L>::MAX } else { words_eq(&words_of(&sat), &s0) });
+            let ssat = a.saturating_sub(&b);
+            assert!(if b0 != 0 { ssat == Uint::<L>::ZERO } else { words_eq(&words_of(&ssat), &d0) });
+            let ca = CheckedAdd::checked_add(&a, &b);
+            assert!(bool::from(ca.is_some()) == (c0 == 0));
+            if c0 == 0 {
+                assert!(words_eq(&words_of(&ca.unwrap()), &s0));
+            }
+            let cs = CheckedSub::checked_sub(&a, &b);
+            assert!(bool::from(cs.is_some()) == (b0 == 0));
+            if b0 == 0 {
+                assert!(words_eq(&words_of(&cs.unwrap()), &d0));
+            }
+            // wrappers
+            let mut w = Wrapping(a);
+            w += Wrapping(b);
+            assert!(words_eq(&words_of(&w.0), &s0));
+            let mut w2 = Wrapping(a);
+            w2 -= &Wrapping(b);
+            assert!(words_eq(&words_of(&w2.0), &d0));
+            assert!(words_eq(&words_of(&(Wrapping(a) + Wrapping(b)).0), &s0));
+            assert!(words_eq(&words_of(&(Wrapping(a) - &Wrapping(b)).0), &d0));
+            let mut ch = Checked::new(a);
+            ch += Checked::new(b);
+            assert!(bool::from(ch.0.is_some()) == (c0 == 0));
+            let ch2 = ch - Checked::new(b); // sticky
+            assert!(bool::from(ch2.0.is_some()) == (c0 == 0));
+            if c0 == 0 {
+                assert!(ch2.0.unwrap() == a);
+            }
+            let mut ch3 = Checked::new(a);
+            ch3 -= &Checked::new(b);
+            assert!(bool::from(ch3.0.is_some()) == (b0 == 0));
+            kani::cover!(c0 == 1 && is_zero_words(&s0)); // result exactly 2^BITS
+            kani::cover!(co.0 == 1 && cin > 1);
+            kani::cover!(b0 == 1);
+        }
+    };
+}
+
+//@ name=c04_uint1_addsub prop=C04,C11 tier=quick profile=k64 funcs="Uint::adc,Uint::sbb,Uint::wrapping_add,Uint::wrapping_sub,Uint::saturating_add,Uint::saturating_sub,CheckedAdd,CheckedSub,WrappingAdd,WrappingSub,Wrapping<Uint>,Checked<Uint>" bound="Uint<1>, all a,b, all carry/borrow-in words" free_bits=192
+uint_addsub!(c04_uint1_addsub, 1);
+//@ name=c04_uint2_addsub prop=C04,C11 tier=quick profile=k64 funcs="Uint::adc,Uint::sbb,Uint::wrapping_add,Uint::wrapping_sub,Uint::saturating_add,Uint::saturating_sub,CheckedAdd,CheckedSub,Wrapping<Uint>,Checked<Uint>" bound="Uint<2>, all a,b, all carry/borrow-in words" free_bits=320
+uint_addsub!(c04_uint2_addsub, 2);
+//@ name=c04_uint3_addsub prop=C04,C11 tier=quick profile=k64 funcs="Uint::adc,Uint::sbb,Uint::wrapping_add,Uint::wrapping_sub,Uint::saturating_add,Uint::saturating_sub,CheckedAdd,CheckedSub,Wrapping<Uint>,Checked<Uint>" bound="Uint<3>, all a,b, all carry/borrow-in words" free_bits=448
+uint_addsub!(c04_uint3_addsub, 3);
+//@ name=c04_uint4_addsub prop=C04,C11 tier=quick profile=k64 funcs="Uint::adc,Uint::sbb,Uint::wrapping_add,Uint::wrapping_sub,Uint::saturating_add,Uint::saturating_sub,CheckedAdd,CheckedSub,Wrapping<Uint>,Checked<Uint>" bound="Uint<4>, all a,b, all carry/borrow-in words" free_bits=576
+uint_addsub!(c04_uint4_addsub, 4);
+//@ name=c04_uint6_addsub prop=C04,C11 tier=thorough profile=k64 funcs="Uint::adc,Uint::sbb,Uint::wrapping_add,Uint::wrapping_sub,Uint::saturating_add,Uint::saturating_sub,CheckedAdd,CheckedSub,Wrapping<Uint>,Checked<Uint>" bound="Uint<6>, all a,b, all carry/borrow-in words" free_bits=832
+uint_addsub!(c04_uint6_addsub, 6);
+//@ name=c04_uint8_addsub prop=C04,C11 tier=thorough profile=k64 funcs="Uint::adc,Uint::sbb,Uint::wrapping_add,Uint::wrapping_sub,Uint::saturating_add,Uint::saturating_sub,CheckedAdd,CheckedSub,Wrapping<Uint>,Checked<Uint>" bound="Uint<8>, all a,b, all carry/borrow-in words" free_bits=1088
+uint_addsub!(c04_uint8_addsub, 8);
+
+//@ prop=C04 tier=quick profile=k64 funcs="Uint::adc" bound="Uint<2>, all a,b,carry-in vs native u128 arithmetic" free_bits=320
 #[kani::proof]
 #[kani::unwind(3)]
 fn c04_uint2_adc_vs_u128() {
@@ -24,11 +267,97 @@ fn c04_uint2_adc_vs_u128() {
     let b: Uint<2> = any_uint();
     let c: u64 = kani::any();
     let (r, co) = a.adc(&b, Limb(c));
-    // exact: a + b + c = r + co * 2^128, computed in two u128 halves
-    let (s1, o1) = u128_of(&a).overflowing_add(u128_of(&b));
+    let (s1, o1) = to_u128(&a).overflowing_add(to_u128(&b));
     let (s2, o2) = s1.overflowing_add(c as u128);
-    assert!(u128_of(&r) == s2);
+    assert!(to_u128(&r) == s2);
     assert!(co.0 == (o1 as u64) + (o2 as u64));
+    let (d, bo) = a.sbb(&b, Limb::ZERO);
+    assert!(to_u128(&d) == to_u128(&a).wrapping_sub(to_u128(&b)));
+    assert!((bo.0 != 0) == (to_u128(&a) < to_u128(&b)));
     kani::cover!(co.0 == 1 && c > 1);
     kani::cover!(co.0 == 0);
+}
+
+macro_rules! uint_neg {
+    ($name:ident, $L:expr) => {
+        #[kani::proof]
+        #[kani::unwind(10)]
+        fn $name() {
+            const L: usize = $L;
+            let a: Uint<L> = any_uint();
+            let aw = words_of(&a);
+            let zero = [0 as Word; L];
+            let (nref, _) = ref_sub(&zero, &aw, 0);
+            assert!(words_eq(&words_of(&a.wrapping_neg()), &nref));
+            assert!(words_eq(&words_of(&WrappingNeg::wrapping_neg(&a)), &nref));
+            let (n, carry) = a.carrying_neg();
+            assert!(words_eq(&words_of(&n), &nref));
+            assert!(carry.to_bool_vartime() == is_zero_words(&aw));
+            let ch: bool = kani::any();
+            let r = a.wrapping_neg_if(ConstChoice::from_word_lsb(ch as Word));
+            assert!(words_eq(&words_of(&r), if ch { &nref } else { &aw }));
+            assert!(words_eq(&words_of(&(-Wrapping(a)).0), &nref));
+            kani::cover!(is_zero_words(&aw));
+            kani::cover!(ch && aw[0] == 0 && (L == 1 || !is_zero_words(&aw))); // borrow ripples past limb 0
+        }
+    };
+}
+//@ name=c04_uint1_neg prop=C04,C11 tier=quick profile=k64 funcs="Uint::wrapping_neg,Uint::carrying_neg,Uint::wrapping_neg_if,WrappingNeg,Neg for Wrapping" bound="Uint<1>, all values" free_bits=65
+uint_neg!(c04_uint1_neg, 1);
+//@ name=c04_uint3_neg prop=C04,C11 tier=quick profile=k64 funcs="Uint::wrapping_neg,Uint::carrying_neg,Uint::wrapping_neg_if,WrappingNeg,Neg for Wrapping" bound="Uint<3>, all values" free_bits=193
+uint_neg!(c04_uint3_neg, 3);
+//@ name=c04_uint4_neg prop=C04,C11 tier=quick profile=k64 funcs="Uint::wrapping_neg,Uint::carrying_neg,Uint::wrapping_neg_if,WrappingNeg,Neg for Wrapping" bound="Uint<4>, all values" free_bits=257
+uint_neg!(c04_uint4_neg, 4);
+//@ name=c04_uint8_neg prop=C04,C11 tier=thorough profile=k64 funcs="Uint::wrapping_neg,Uint::carrying_neg,Uint::wrapping_neg_if" bound="Uint<8>, all values" free_bits=513
+uint_neg!(c04_uint8_neg, 8);
+
+//@ prop=C04,C11 tier=quick profile=k64 funcs="Add for Uint,Sub for Uint,AddAssign,SubAssign" bound="Uint<2>, all a,b in range: operators exact and panic-free" free_bits=256
+#[kani::proof]
+#[kani::unwind(4)]
+fn c04_uint2_ops_in_range() {
+    let a: Uint<2> = any_uint();
+    let b: Uint<2> = any_uint();
+    let (x, y) = (to_u128(&a), to_u128(&b));
+    if x.checked_add(y).is_some() {
+        assert!(to_u128(&(a + b)) == x + y);
+        assert!(to_u128(&(a + &b)) == x + y);
+        let mut t = a;
+        t += b;
+        assert!(to_u128(&t) == x + y);
+        let mut t2 = a;
+        t2 += &b;
+        assert!(to_u128(&t2) == x + y);
+    }
+    if x >= y {
+        assert!(to_u128(&(a - b)) == x - y);
+        assert!(to_u128(&(a - &b)) == x - y);
+        let mut t = a;
+        t -= b;
+        assert!(to_u128(&t) == x - y);
+        let mut t2 = a;
+        t2 -= &b;
+        assert!(to_u128(&t2) == x - y);
+    }
+}
+
+//@ prop=C04,C11 tier=quick profile=k64 funcs="Add for Uint" bound="Uint<2>, all a,b with a+b >= 2^128: operator must panic" free_bits=256 must_panic=1
+#[kani::proof]
+#[kani::unwind(4)]
+fn c04_uint2_add_op_panics_on_overflow() {
+    let a: Uint<2> = any_uint();
+    let b: Uint<2> = any_uint();
+    kani::assume(to_u128(&a).checked_add(to_u128(&b)).is_none());
+    let _ = a + b;
+    must_have_panicked();
+}
+
+//@ prop=C04,C11 tier=quick profile=k64 funcs="Sub for Uint" bound="Uint<2>, all a<b: operator must panic" free_bits=256 must_panic=1
+#[kani::proof]
+#[kani::unwind(4)]
+fn c04_uint2_sub_op_panics_on_underflow() {
+    let a: Uint<2> = any_uint();
+    let b: Uint<2> = any_uint();
+    kani::assume(to_u128(&a) < to_u128(&b));
+    let _ = a - &b;
+    must_have_panicked();
 }
